@@ -135,6 +135,23 @@ func VerifH_C01_switch() {
 	verifAssert(err == nil, "the program completes normally")
 	verifAssert(r.same(want), "12.11 switch: cases tested in order with ===, default last, fall-through until break")
 	verifAssert(verifSameJS(v, numV(x)), "completion value of the last expression statement")
+	// the discriminant is evaluated once, before any case expression; a clause
+	// ending in break keeps the value produced so far
+	r.got = nil
+	src2 := "var d = x; function u(id, v) { rec(id); d = 77; return v } 5; switch (d) { case u(21, y): rec(1); 6; break; case u(22, x): rec(2); 7; break; case 77: rec(3); 8; break; default: rec(4); 9 }"
+	v2, err2 := verifSubmit(vm, src2, verifRoute())
+	var want2 []Value
+	var cv float64
+	switch {
+	case x == y:
+		want2, cv = verifNums(21, 1), 6
+	case x == x:
+		want2, cv = verifNums(21, 22, 2), 7
+	default: // NaN never matches, not even the clause that repeats it; 77 is not the discriminant
+		want2, cv = verifNums(21, 22, 4), 9
+	}
+	verifAssert(err2 == nil && r.same(want2), "12.11: the discriminant is evaluated once, before the case expressions run")
+	verifAssert(verifSameJS(v2, numV(cv)), "12.11: a clause ending in break keeps the completion value produced so far")
 }
 
 // labelled break / continue through nested for loops, do-while continue.
@@ -222,6 +239,7 @@ func VerifH_C01_try() {
 	src := "function f() { try { rec(1); if (c1) throw x; if (c2) return 1; rec(2) } catch (e) { rec(e); if (c3) return 2; if (c4) throw 8 } finally { rec(3); if (c5) return 3 } rec(4); return 4 }" +
 		"var r; try { r = f() } catch (e) { r = 100 + e } rec(r);" +
 		"for (var i = 0; i < 3; i++) { try { if (i == a) continue; if (i == b) break; rec(10 + i) } finally { rec(20 + i) } } rec(i);" +
+		"var e = 40; try { throw 41 } catch (e) { rec(e) } finally { rec(e) } rec(e);" +
 		"(function () { try { return t(31, 5) } finally { rec(32) } })()"
 	v, err := verifSubmit(vm, src, verifRoute())
 	verifCover("reached")
@@ -268,7 +286,7 @@ func VerifH_C01_try() {
 		}
 		want = append(want, numV(float64(10+i)), numV(float64(20+i)))
 	}
-	want = append(want, numV(float64(i)), numV(31), numV(32))
+	want = append(want, numV(float64(i)), numV(41), numV(40), numV(40), numV(31), numV(32))
 	verifAssert(err == nil, "the program completes normally")
 	verifAssert(r.same(want), "12.14 try/catch/finally: finally always runs, its abrupt completion overrides, otherwise the pending completion continues")
 	verifAssert(verifSameJS(v, numV(5)), "the return value computed before finally is the result")
@@ -469,4 +487,33 @@ func VerifH_C01_uncaught() {
 		msg := err2.Error()
 		verifAssert(len(msg) >= len(classes[k]) && msg[:len(classes[k])] == classes[k], "the error returned by Run names the class of the uncaught exception")
 	}
+}
+
+// for-in while the body deletes and adds properties (12.6.4): a property
+// deleted before it is reached is not visited, none is visited twice, none of
+// the others is skipped; a property added during the loop may or may not be
+// visited (not asserted).
+func VerifH_C01_forin_mutation() {
+	vm := New()
+	var r verifRec
+	r.install(vm)
+	at := verifChoose(4)  // at which step (0..3) the body deletes
+	del := verifChoose(4) // which of a, b, c, d it deletes
+	add := verifNondetBool()
+	vm.Set("at", at)
+	vm.Set("del", []string{"a", "b", "c", "d"}[del])
+	vm.Set("add", add)
+	src := "var o = {a: 1, b: 2, c: 3, d: 4}, step = 0, seen = ''; for (var k in o) { if (k.length == 1) seen += k; if (step == at) { delete o[del]; if (add) o.zz = 9 } step++ } seen"
+	v, err := verifSubmit(vm, src, verifRoute())
+	verifCover("reached")
+	verifAssert(err == nil, "the program completes normally")
+	// keys are visited in creation order (what otto and every engine does for such objects)
+	want := ""
+	for i, k := range []string{"a", "b", "c", "d"} {
+		deletedBefore := i > at && i == del // deleted at step `at`, before being reached
+		if !deletedBefore {
+			want += k
+		}
+	}
+	verifAssert(v.String() == want, "12.6.4: a property deleted before it is reached is not visited; the others exactly once")
 }
